@@ -2,7 +2,7 @@
 import re
 from collections import deque
 from .. import cfg, idioms
-from ..idioms import cname
+from ..idioms import cname, last_seg
 
 ENC = "binary_stream::futures::Encodable"
 DEC = "binary_stream::futures::Decodable"
@@ -327,6 +327,146 @@ def r7_wire_bindings(ctx):
         r.anchor_missing("From/TryFrom pairs of protobuf bindings (found %d)" % n)
 
 
+_STD = re.compile(r"^(core::|std::|alloc::)")
+
+
+def r8_enum_conversions_inverse(ctx):
+    """Variant-to-variant tables of every pair of enum conversions (domain
+    enum <-> wire oneof) extracted from the match arms are mutually inverse."""
+    ws = ctx.ws
+    r = ctx.rule("C14-R8", "enum conversions to and from the wire types map variants inversely",
+                 floor=20, kind="K6 arm tables, sibling agreement")
+    maps, where = {}, {}
+    for root, fn in sorted(ws.fns.items()):
+        if fn.crate in idioms.TEST_CRATES or idioms.last_seg(root) not in ("from", "try_from", "into", "try_into"):
+            continue
+        for b in fn.bodies:
+            for es in cfg.enum_switches(b):
+                if not es.enum or _STD.match(es.enum):
+                    continue
+                for v, blocks in idioms.arm_regions(b, es).items():
+                    if v == "_":
+                        continue
+                    for i in blocks:
+                        for st in b.blocks[i]["s"]:
+                            if st.get("k") != "agg" or not st.get("adt") or st["adt"] == es.enum or _STD.match(st["adt"]) or st.get("variant") is None:
+                                continue
+                            a = ws.adts.get(st["adt"])
+                            if a and a["kind"] == "Enum":
+                                maps.setdefault((es.enum, st["adt"]), {}).setdefault(v, set()).add(st["variant"])
+                                where.setdefault((es.enum, st["adt"], v), cfg.loc(b, i))
+    n = 0
+    for (s_, t_), fwd in sorted(maps.items()):
+        rev = maps.get((t_, s_))
+        if rev is None:
+            continue
+        for v, ts in sorted(fwd.items()):
+            for t in sorted(ts):
+                if t not in rev:
+                    continue   # the other direction handles that variant some other way (nested message, integer tag)
+                n += 1
+                k = "%s::%s->%s::%s" % (s_, v, t_, t)
+                if v in rev[t]:
+                    r.ok(k, where[(s_, t_, v)], "and back: %s::%s -> %s" % (last_seg(t_), t, sorted(rev[t])), work=2)
+                else:
+                    r.violation(k, where.get((t_, s_, t), where[(s_, t_, v)]),
+                                "%s::%s is converted to %s::%s, but the reverse conversion turns %s::%s into %s: the value does not survive the round trip" % (
+                                    last_seg(s_), v, last_seg(t_), t, last_seg(t_), t, sorted(rev[t])), work=2)
+    if n < 30:
+        r.anchor_missing("bidirectional enum conversion arms (found %d, 38 on the pinned tree)" % n)
+
+
+def _deref_place(body, place, defs, depth=0):
+    """Canonical place an operand/place refers to: follows a single `ref`/copy
+    definition of a temporary back to the place it borrows."""
+    l = cfg.place_local(place)
+    ds = defs.get(l, [])
+    if depth < 6 and len(ds) == 1 and not ds[0][2]:
+        st = ds[0][1]
+        rest = place[len(str(l)):]
+        if st.get("k") in ("ref", "refmut") and rest in ("", ".*"):
+            return _deref_place(body, st["p"], defs, depth + 1) if rest == ".*" or rest == "" else place
+        if st.get("k") == "use" and rest == "":
+            p_ = cfg.op_place(st["ops"][0])
+            if p_:
+                return _deref_place(body, p_, defs, depth + 1)
+    return place
+
+
+def r9_presence_flags(ctx):
+    """`write_bool(x.is_some())` followed by `if let Some(v) = y { v.encode() }`
+    must test the same Option (x == y): otherwise the decoder, which reads the
+    flag and then the payload, gets out of step for some values."""
+    ws = ctx.ws
+    r = ctx.rule("C14-R9", "a presence flag and the optional payload that follows it test the same Option",
+                 floor=19, kind="K4 place identity along the CFG")
+    n = 0
+    for root, fn in sorted(ws.fns.items()):
+        if fn.crate in idioms.TEST_CRATES or not any(cname(t) == "write_bool" for _b, _i, t in fn.calls()):
+            continue
+        body = cfg.code_body(ws, fn)
+        live = cfg.live_blocks(body)
+        defs = cfg.defs_of(body)
+        sc = cfg.succs(body)
+        idx = 0
+        for i, t in idioms.real_calls(body, live):
+            if cname(t) != "write_bool" or len(t["args"]) < 2:
+                continue
+            ap = cfg.op_place(t["args"][1])
+            if ap is None:
+                continue
+            org = idioms.origin_calls(body, ap)
+            tests = [body.blocks[b]["term"] for b in org if cname(body.blocks[b]["term"]) in ("is_some", "is_none")
+                     and "option::Option" in (body.blocks[b]["term"].get("callee") or "")]
+            if len(org) != 1 or len(tests) != 1:
+                continue
+            p1 = cfg.op_place(tests[0]["args"][0])
+            if p1 is None:
+                continue
+            k1 = _deref_place(body, p1, defs)
+            if k1.endswith(".*") and not p1.endswith(".*"):
+                pass
+            # first Option switch after the flag, not beyond the next write_bool
+            seen, dq, found = {i}, deque(sc[i]), None
+            while dq and found is None:
+                b = dq.popleft()
+                if b in seen or b not in live:
+                    continue
+                seen.add(b)
+                es = cfg.enum_switch(body, b)
+                if es and es.enum == "core::option::Option":
+                    found = es
+                    break
+                tt = body.blocks[b].get("term") or {}
+                if tt.get("k") == "call" and cname(tt) in ("write_bool",) and not idioms.is_noise(tt):
+                    continue
+                dq.extend(sc[b])
+            if found is None:
+                continue
+            n += 1
+            idx += 1
+            k2 = _deref_place(body, found.place, defs)
+            norm = lambda p_: re.sub(r"\.\*$", "", p_)
+
+            def nm(p_):
+                q = norm(p_)
+                for cand in (q, q + ".*"):
+                    if body.vars.get(cand):
+                        return body.vars[cand]
+                fs = cfg.place_fields(q)
+                return (body.var_name(cfg.place_local(q)) or "_%d" % cfg.place_local(q)) + ("." + ".".join(fs) if fs else "")
+            key = "%s|flag#%d" % (fn.root, idx)
+            if norm(k1) == norm(k2):
+                r.ok(key, cfg.loc(body, i), "flag and payload both test %s" % nm(k1), work=len(seen))
+            else:
+                r.violation(key, cfg.loc(body, i),
+                            "the presence flag written here tests `%s` but the optional payload that follows is `%s`: when only one of the two is set the decoder reads a flag that does not match the bytes" % (
+                                nm(k1), nm(k2)),
+                            work=len(seen))
+    if n < 19:
+        r.anchor_missing("presence-flag sites in encoders (found %d, 19 on the pinned tree)" % n)
+
+
 def _self_fields(ws, adt_path):
     adt = ws.adts.get(adt_path)
     if not adt or adt["kind"] != "Struct":
@@ -452,7 +592,7 @@ def run(ctx):
         "Decodable impls, the fields the encoder reads are stored by the decoder; (R3) for each enum with a "
         "From<&T> for uN / TryFrom<uN> for T pair the variant→tag and tag→variant tables extracted from the match arms "
         "are inverse and injective over all variants; (R4) no HashMap/HashSet inside types whose encoding is hashed "
-        "into commits; (R5) event rows map to and from the same record parts. Decides shape/field/tag agreement in "
+        "into commits; (R5) event rows map to and from the same record parts; (R8) the variant tables of every pair of enum conversions (domain enum <-> protobuf oneof) are mutually inverse; (R9) every presence flag written by an encoder tests the same Option as the optional payload that follows it. Decides shape/field/tag agreement in "
         "every branch; value equality (timestamp precision etc.) is not decided.")
     ctx.trust("binary_stream primitive readers/writers are mutually inverse", "prost encode/decode are mutually inverse")
     r1_wire_grammar(ctx)
@@ -462,3 +602,5 @@ def run(ctx):
     r5_db_row_mapping(ctx)
     r6_variant_coverage(ctx)
     r7_wire_bindings(ctx)
+    r8_enum_conversions_inverse(ctx)
+    r9_presence_flags(ctx)
